@@ -205,5 +205,13 @@ def names_rule(ctx):
             continue
         cs = fv.calls_to("std::fs::File::create", "std::fs::OpenOptions::open")
         ok = len(cs) == 1 and fv.term(cs[0]["args"][0]) == ("param", param_index(fv, "out_path"))
+        if not cs:
+            for c, hv in helper_views(ctx, fv):
+                hcs = hv.calls_to("std::fs::File::create", "std::fs::OpenOptions::open")
+                if len(hcs) == 1 and hv.term(hcs[0]["args"][0])[0] == "param":
+                    pi_ = hv.term(hcs[0]["args"][0])[1]
+                    args = [fv.term(a) for a in call_args(c)]
+                    ok = pi_ < len(args) and args[pi_] == ("param", param_index(fv, "out_path"))
+                    cs = [c]
         ctx.check("C17.O", "%s:result_name" % path.split("::")[-1], ok, "writes exactly out_path",
                   "output path is `%s`" % (show(fv.term(cs[0]["args"][0])) if cs else "?"), line_of(cs[0]) if cs else fv.fn["sp"])
